@@ -195,7 +195,7 @@ func runC14(c *core.Ctx) {
 						emptyOK = true
 					}
 				}
-				if mc, isC := core.Unparen(ft.Expr).(*ast.CallExpr); isC && ft.Truth && core.FuncKey(core.Callee(f.Pkg, mc)) == fpkg+".(*TermCondition).Matches" {
+				if mc := core.CallOf(f, ft.Expr); mc != nil && ft.Truth && core.FuncKey(core.Callee(f.Pkg, mc)) == fpkg+".(*TermCondition).Matches" {
 					// inside a range over t.from, on the loop variable
 					for _, anc := range core.PathTo(f.Decl.Body, ret) {
 						if r, isR := anc.(*ast.RangeStmt); isR && core.FieldOf(f.Pkg, r.X) == from {
